@@ -492,6 +492,11 @@ func (fr *Frame) execRange(ins *ssa.Range, st *State) {
 		mapIterByTerm[vc] = map[string]string{}
 	}
 	mapIterByTerm[vc][typeKey(mt)] = it
+	if _, _, isInt := intInfo(mt.Elem()); isInt && !vc.bv {
+		// msum(content, V): the sum of the values of the keys in V; empty set: 0
+		content := fmt.Sprintf("(select %s %s)", vc.get(st, vc.mapComp(mt)), m.S)
+		vc.assumeIf(fr.curReach, fmt.Sprintf("(= (%s %s ((as const (Array %s Bool)) false)) 0)", vc.msumFn(mt), content, vc.sortOf(mt.Key())))
+	}
 	fr.checkMapGuard(ins.X, false, ins.Pos(), st)
 }
 
@@ -526,6 +531,10 @@ func (fr *Frame) execNext(ins *ssa.Next, st *State) {
 	v := vc.fresh("nextval")
 	vc.define(v, vc.sortOf(mt.Elem()), fmt.Sprintf("(ite %s (val_%s (select %s %s)) %s)", okn, tk, content, k.S, vc.zero(mt.Elem()).S))
 	vc.assumeIf(fr.curReach, vc.wf(mt.Elem(), v))
+	if _, _, isInt := intInfo(mt.Elem()); isInt && !vc.bv {
+		f := vc.msumFn(mt)
+		vc.assumeIf(fr.curReach, fmt.Sprintf("(= (%s %s (ite %s (store %s %s true) %s)) (+ (%s %s %s) (ite %s (val_%s (select %s %s)) 0)))", f, content, okn, visited, k.S, visited, f, content, visited, okn, tk, content, k.S))
+	}
 	vc.set(st, comp, fmt.Sprintf("(store %s %s (ite %s (store %s %s true) %s))", vc.get(st, comp), it, okn, visited, k.S, visited))
 	fr.tupleParts[ins] = []Term{{okn, "Bool", types.Typ[types.Bool]}, {k.S, k.Sort, mt.Key()}, {v, vc.sortOf(mt.Elem()), mt.Elem()}}
 	fr.vals[ins] = Term{"tuple", "tuple", ins.Type()}
@@ -1231,4 +1240,15 @@ func init() {
 		vc.set(st, wf, fmt.Sprintf("(store %s %s 0)", vc.get(st, wf), w))
 		return nil
 	}, modifies: wm, doc: "bytes.Buffer.Reset"}
+}
+
+// msumFn: msum_<map type>(content, V) — the sum of the (integer) values stored under the keys in V.
+// Constrained only by the facts emitted at `range` (empty set: 0) and at each `next` (one more key).
+func (vc *VC) msumFn(mt *types.Map) string {
+	name := "msum_" + typeKey(mt)
+	if !vc.declared[name] {
+		vc.declared[name] = true
+		vc.decls = append(vc.decls, fmt.Sprintf("(declare-fun %s ((Array %s %s) (Array %s Bool)) Int)", name, vc.sortOf(mt.Key()), vc.optSort(mt.Elem()), vc.sortOf(mt.Key())))
+	}
+	return name
 }
